@@ -181,7 +181,7 @@ pub fn run(sink: &mut Sink, rng: &mut Rng, quick: bool) {
         sink.count("e2e:corpus-allvalid-list");
         match r {
             Ok(Ok(bad)) if bad.is_empty() => sink.oracle_ok(),
-            other => sink.oracle_fail(Some("allvalid_list_over_nullable_items"), &format!("e2e: all-valid list over nullable items does not round trip: {:?}", other).chars().take(300).collect::<String>(), case),
+            other => sink.oracle_fail(None, &format!("e2e: all-valid list over nullable items does not round trip: {:?}", other).chars().take(300).collect::<String>(), case),
         }
     }
     // complex all-null page: rows with more than one level entry
@@ -218,7 +218,7 @@ pub fn run(sink: &mut Sink, rng: &mut Rng, quick: bool) {
             sink.count("e2e:corpus-list-of-nullable-struct");
             match r {
                 Ok(Ok(bad)) if bad.is_empty() => sink.oracle_ok(),
-                other => sink.oracle_fail(Some("list_of_nullable_struct_repdef"), &format!("e2e: list<struct> with nulls does not round trip: {:?}", other).chars().take(300).collect::<String>(), case),
+                other => sink.oracle_fail(None, &format!("e2e: list<struct> with nulls does not round trip: {:?}", other).chars().take(300).collect::<String>(), case),
             }
         }
     }
